@@ -451,8 +451,29 @@ def run_queues(pid, tier, seed):
             replies += 1
             if e['code'] != 0: refusals += 1
         if len(samples) < 8 and e['e'] in ('call', 'reply', 'shutdown', 'exit'): samples.append(e)
+    front = 0
+    if not viol:
+        # the explicit errors (queue full, scheduler full, shutting down, subsystem failure; with and without an
+        # underlying cause) must reach the client through the real HTTP and gRPC front ends: the rows of Render.tla
+        # with a platform status, played by frontx, judged by RenderTrace.tla
+        core.build(['frontx'])
+        allv, fv, fobs = f'{rundir}/rvectors.ndjson', f'{rundir}/refusals.ndjson', f'{rundir}/refusals-obs.ndjson'
+        gen_vectors('RenderGen.tla', allv, rundir)
+        keep = [l for l in open(allv).read().splitlines() if json.loads(l).get('via') == 'error' and json.loads(l).get('status', 0) >= 50000]
+        open(fv, 'w').write('\n'.join(keep) + '\n')
+        fcmd = f'{V}/build/frontx -vectors {fv} -out {fobs}'
+        fp = core.sh(fcmd)
+        if fp.returncode != 0:
+            print(fp.stdout[-1500:], fp.stderr[-1500:]); core.die('frontx failed')
+        front = sum(1 for _ in open(fobs))
+        if front != 2 * len(keep): core.die(f'frontx played {front} cases, expected {2 * len(keep)} (machinery)')
+        fr = tlc_trace('RenderTrace.tla', fobs, ['C12_ExplicitErrorReachesClient'], f'{rundir}/vfront', extra_consts='  Known = {' + ', '.join(f'"{k}"' for k in known) + '}\n')
+        if fr['error']:
+            print(fr['error']); core.die('TLC could not validate the front-end observations (machinery error)')
+        if fr['violated']:
+            fr['module'] = 'RenderTrace.tla'; viol = fr; cmd = fcmd
     wall = time.time() - t0
-    cov = dict(states=dist or 1, transitions=gen or 1, traces_validated_against_impl=rounds, evaluations=replies, distinct_nontrivial=refusals,
+    cov = dict(states=dist or 1, transitions=gen or 1, traces_validated_against_impl=rounds, evaluations=replies + front, distinct_nontrivial=refusals, refusals_through_front_ends=front,
                rule='one trace = one run of the production api/aio/Loop with real goroutines: either a TLC-generated schedule of the controllable steps (call up to the hook after the done-check, send, shutdown) or a seeded free-running round with queue/pool/batch sizes 1..3; non-trivial = requests that were refused (backpressure or shutdown)',
                schedules=len(lines), stress_rounds=nstress, samples=samples, exhaustive=False, known_findings_met=sorted(seen))
     assumptions = ['Queues.tla models one worker and the echo round trip', 'the client-visible contract is what is judged on real runs; internal kernel steps are not logged', 'wall-clock settle times (8-100 ms) in directed mode']
